@@ -9,6 +9,7 @@ THEOREMS = ["NakenVerif.Listing." + t for t in (
     "dump_shows_exactly_the_data", "dump_true", "dump_complete_once", "dump_range_finite", "cpu_list_units_fit_dump",
     "walk_lines_tile", "listing_walk_is_common_walk", "exact_of_walk", "line_is_disasm_of_shown_bytes",
     "msp430_line_cells_exact", "riscv_line_cells_exact", "msp430_len_local", "msp430_advance_is_count", "riscv_len_local",
+    "msp430_adjust_skips_exactly_the_pad", "riscv_call_exact_of_len4",
     "listing_bytes_true", "listing_complete_once", "listing_low_high_match", "listing_symbols_match",
     "overwrite_counterexample", "top_of_memory_counterexample", "include_code_counterexample")]
 RULE = ("programs: one program per case from tools/gen_listing.py (CPU from corpus/statements x shape: plain, instruction after "
